@@ -283,7 +283,21 @@ def _scribble(keep):
     keep["s"]["canonical_perm"].reverse()
 
 
-def _run_history(case, analyse):
+def _scribble_results(keep):
+    """the caller edits the RESULTS an earlier analysis returned (not the analyzer's view)"""
+    G = keep["s"]["canon_graph"]
+    G.add_node("zz_scribble", kind="species")
+    for u, v, d in list(G.edges(data=True)):
+        d["stoich"] = 7
+    for o in list(keep["s"]["orbits"]) + list(keep["a"]["orbits"]):
+        o.add("zz_scribble")
+    for p in keep["s"]["sample_permutations"]:
+        p.reverse()
+    for m in keep["s"]["mappings"] + keep["a"].get("sample_mappings", []):
+        m.clear()
+
+
+def _run_history(case, analyse, reread=None):
     """ONE hypergraph object; ops = analyses (each on fresh analyzers), in-place edits of the hypergraph, edits of earlier
     results by the caller, repeated reads of an earlier analyzer.  analyse(H, net_value, view, st, intids, keep) is called for
     every analysis; returns the list of its results"""
@@ -297,6 +311,13 @@ def _run_history(case, analyse):
             out.append(analyse(H, net, op[1], op[2], op[3], keep))
         elif op[0] == "scribble":
             _scribble(keep)
+        elif op[0] == "reread":
+            if keep and reread is not None:
+                reread(keep)
+            elif keep:
+                _scribble_results(keep)
+                keep["C"].summary()
+                keep["A"].summary(max_count=10 ** 9, timeout_sec=None)
         elif op[0] == "reuse":
             if keep:
                 keep["C"].summary()
@@ -315,7 +336,7 @@ def _history_nets(case):
     for op in case["ops"]:
         if op[0] == "an":
             out.append((net, op[1], op[2], op[3]))
-        elif op[0] not in ("scribble", "reuse"):
+        elif op[0] not in ("scribble", "reuse", "reread"):
             net = _apply_op(net, op)
     return out
 
@@ -578,7 +599,27 @@ def _oracle_hist(case):
         keep.update(C=C, A=A, s=C.summary(), a=A.summary(max_count=10 ** 9, timeout_sec=None))
         return None
 
-    _run_history(case, analyse)
+    def snap(C, A):
+        s_, a_ = C.summary(), A.summary(max_count=10 ** 9, timeout_sec=None)
+        gk = lambda G_: (sorted((repr(n), repr(sorted(d.items(), key=repr))) for n, d in G_.nodes(data=True)),
+                         sorted((repr(u), repr(v), repr(sorted(d.items(), key=repr))) for u, v, d in G_.edges(data=True)))
+        return dict(canon=gk(s_["canon_graph"]), count=s_["automorphism_count"], perm=list(map(repr, s_["canonical_perm"])),
+                    orbits=sorted(sorted(map(repr, o)) for o in s_["orbits"]), leaves=[list(map(repr, p)) for p in s_["sample_permutations"]],
+                    maps=[sorted(map(repr, m.items())) for m in s_["mappings"]],
+                    vf2_count=a_["automorphism_count"], vf2_orbits=sorted(sorted(map(repr, o)) for o in a_["orbits"])), s_, a_
+
+    def reread(keep):
+        """the same analyzers read again after the caller scribbled on the results they returned earlier"""
+        before, s_, a_ = snap(keep["C"], keep["A"])
+        keep["s"], keep["a"] = s_, a_
+        _scribble_results(keep)
+        after, _, _ = snap(keep["C"], keep["A"])
+        bad = [f for f in before if before[f] != after[f]]
+        if bad and not fails:
+            fails.append(dict(clause="result-aliasing", detail="reading the same analyzers again after the caller edited the results returned earlier "
+                              "changes %s (history %r): before %r, after %r" % (bad, case["ops"], {f: before[f] for f in bad[:1]}, {f: after[f] for f in bad[:1]})))
+
+    _run_history(case, analyse, reread)
     return fails
 
 
@@ -738,7 +779,7 @@ def shrink(case, fl):
 def neighbours(case, rng):
     if case.get("ops"):
         ans = [op for op in case["ops"] if op[0] == "an"]
-        return [dict(case, ops=[op for op in case["ops"] if op[0] not in ("scribble", "reuse")], name="no-scribble"),
+        return [dict(case, ops=[op for op in case["ops"] if op[0] not in ("scribble", "reuse", "reread")], name="no-scribble"),
                 dict(case, ops=ans[-1:], name="last-analysis-only")]
     if case.get("steps"):
         return [dict(case, steps=[stp], name="single-step") for stp in case["steps"]] + \
@@ -1154,6 +1195,7 @@ def _hist_cases(rng, nrand):
         (sym, [A(), ["coeff", "e2", 0, "B", 2], A(), ["coeff", "e2", 0, "B", 1], A(), ["replace", "e2", "r", [["C", 1]], [["B", 1]]], A(), A("sp")]),
         (sym, [A(), ["scribble"], A(), ["scribble"], A("sp"), ["scribble"], A("sp"), A("bip", True, True), ["scribble"], A("bip", True, True)]),
         (sym, [A(), ["reuse"], ["replace", "e1", "q", [["A", 1]], [["C", 1]]], ["reuse"], A(), ["rmsp", "C"], ["reuse"], A(), A("sp")]),
+        (sym, [A(), ["reread"], A(), ["reread"], ["coeff", "e1", 0, "A", 2], ["reread"], A("sp"), ["reread"], A("bip", False), ["reread"]]),
         (base, [A("bip", True, True), ["replace", "e2", "r", [["C", 1]], [["B", 1]]], A("bip", True, True), A("bip", False, True), A()]),
         (sym, [A("sp"), ["replace", "e1", "r", [["C", 1]], [["A", 1]]], A("sp"), ["rmsp", "A"], A("sp"), A()]),
         ([["e1", "r", [["A", 1]], [["A", 1]]]], [A(), A("sp"), ["coeff", "e1", 1, "A", 2], A(), A("sp"), ["rmsp", "A"], A(), A("sp")]),
@@ -1168,7 +1210,7 @@ def _hist_cases(rng, nrand):
         ops = [A(rng.choice(["bip", "bip", "sp"]), rng.random() < 0.6, rng.random() < 0.2)]
         cur = net
         for _ in range(rng.randint(2, 4)):
-            kind = rng.choice(["replace", "coeff", "coeff", "rmsp", "scribble", "reuse", "add"])
+            kind = rng.choice(["replace", "coeff", "coeff", "rmsp", "scribble", "reuse", "reread", "add"])
             op = None
             if kind == "replace" and cur["rxns"]:
                 l, r = _rand_rxs(rng, sp, 1, [1, 2, 3])[0]
@@ -1185,12 +1227,12 @@ def _hist_cases(rng, nrand):
                 present = sorted({a for x in cur["rxns"] for a, _ in x[2] + x[3]})
                 if present:
                     op = ["rmsp", rng.choice(present)]
-            elif kind in ("scribble", "reuse"):
+            elif kind in ("scribble", "reuse", "reread"):
                 op = [kind]
             if op is None:
                 continue
             ops.append(op)
-            if op[0] not in ("scribble", "reuse"):
+            if op[0] not in ("scribble", "reuse", "reread"):
                 cur = _apply_op(cur, op)
             ops.append(A(rng.choice(["bip", "bip", "sp"]), rng.random() < 0.6, rng.random() < 0.2))
         out.append(dict(kind="hist", view="bip", stoich=True, nets=[net], rel=["base"], ops=ops))
@@ -1203,6 +1245,8 @@ def _degenerate_cases(rng):
         ([], []),                                                               # empty network
         ([], ["A"]),                                                            # one isolated species
         ([], ["A", "B"]),
+        ([], [""]),                                                             # isolated species with falsy / odd labels
+        ([((("A", 1),), (("B", 1),))], ["", "0"]),
         ([((("A", 1),), (("A", 1),))], []),                                     # null step
         ([((("A", 2),), (("A", 1),))], []),
         ([((("A", 1),), (("A", 1),)), ((("B", 1),), (("B", 1),))], []),
